@@ -21,6 +21,7 @@ const modPath = "github.com/versity/versitygw"
 type Program struct {
 	Renames      []string // anchors located under another name (rename.go)
 	renamed      []*ssa.Function
+	forwarders   []*ssa.Function        // entry points that only forward to the function that took their name
 	Inlined      int                    // call sites normalised by inline.go
 	Absorbed     map[*ssa.Function]bool // helpers that now exist only as inlined copies: not analysed on their own
 	InlinedCalls []inlinedCall
@@ -197,11 +198,11 @@ func fnName(f *ssa.Function) string {
 	if f == nil {
 		return "<nil>"
 	}
-	if f.Parent() != nil {
-		return fnName(f.Parent()) + "$" + strings.TrimPrefix(f.Name(), f.Parent().Name()+"$")
-	}
 	if n, ok := renamedFns.Load(f); ok {
 		return n.(string)
+	}
+	if f.Parent() != nil {
+		return fnName(f.Parent()) + "$" + strings.TrimPrefix(f.Name(), f.Parent().Name()+"$")
 	}
 	if obj, ok := f.Object().(*types.Func); ok && obj != nil {
 		return objName(obj)
@@ -220,8 +221,11 @@ func objName(fn *types.Func) string {
 // caller handles nil through FuncOpt.
 func (p *Program) Func(name string) *ssa.Function {
 	f := p.fnIndex[name]
-	if f == nil {
-		f = p.returnedFunc(name)
+	if strings.Contains(name, "$") {
+		// "Factory$1" means the function the factory returns, whatever number the literal has today
+		if g := p.returnedFunc(name); g != nil {
+			f = g
+		}
 	}
 	if f == nil {
 		broken("anchor function %q does not resolve in %s", name, p.Config)
@@ -261,6 +265,15 @@ func (p *Program) returnedFunc(name string) *ssa.Function {
 	}
 	g := cands[0]
 	was := fnName(g)
+	if was == name {
+		return g
+	}
+	if old := p.fnIndex[name]; old != nil && old != g {
+		// another literal of the factory carries that number today: it gives the name up
+		renamedFns.Store(old, name+"'")
+		p.renamed = append(p.renamed, old)
+		p.fnIndex[name+"'"] = old
+	}
 	renamedFns.Store(g, name)
 	p.renamed = append(p.renamed, g)
 	p.fnIndex[name] = g
